@@ -179,3 +179,19 @@ Definition name_parts (full : str) : res (str * str) :=
   let parts := split_on 46 full in
   if 2 <=? len parts then do a <- idx parts 0; do b <- idx parts (len parts - 1); Ok (a, b)
   else do b <- idx parts 0; Ok ([], b).
+
+(* ------------------------------------------------------------------ admin/users/update.go *)
+(* UpdateUserHandler's validation loop over the permissions of the body: blank entries (after trimming)
+   are skipped, then perm[0] is inspected.  early_trim = true: only the literally empty entry is skipped
+   and the entry is trimmed before perm[0] (a whitespace-only entry then indexes an empty string).
+   ok = the name check of the remaining text; result false = 400. *)
+Fixpoint user_perms (early_trim : bool) (ok : str -> bool) (perms : list str) : res bool :=
+  match perms with
+  | [] => Ok true
+  | p :: r =>
+    if (if early_trim then len p =? 0 else len (trim p) =? 0) then user_perms early_trim ok r else
+    let p := if early_trim then trim p else p in
+    do c <- idx p 0;
+    do p' <- (if (c =? 43)%N || (c =? 45)%N then slice p 1 (len p) else Ok p);
+    if ok p' then user_perms early_trim ok r else Ok false
+  end.
